@@ -1,6 +1,91 @@
-(** C06 — placeholder while the proofs are being ported; replaced below. *)
-From RL Require Import Proofs.CrcP.
-From Coq Require Import NArith.
-Theorem crc_single_bit : forall l k s, (s < 2^32)%N -> (k < length l)%nat -> Crc.run s (Crc.flip k l) <> Crc.run s l.
-Proof. exact run_detects_single_bit. Qed.
-Print Assumptions crc_single_bit.
+(** * C06 — column encodings round-trip every value exactly.
+    Only statements, each closed by [exact] of a lemma proved in Proofs/, with its assumptions printed. *)
+From RL Require Import Model.Codec Model.ColIter Proofs.BytesP Proofs.CodecP Proofs.ColIterP Proofs.C06P.
+Open Scope Z_scope.
+
+(** value codecs *)
+Theorem le_roundtrip : forall w z rest, (0 < w)%nat -> in_range w z -> sle_dec w (sle_enc w z ++ rest) = z.
+Proof. exact sle_dec_enc. Qed.
+Theorem be_roundtrip : forall w z rest, (0 < w)%nat -> in_range w z -> sbe_dec w (sbe_enc w z ++ rest) = z.
+Proof. exact sbe_dec_enc. Qed.
+Theorem varint_roundtrip : forall v rest, 0 <= v < 15 * 2 ^ 28 ->
+  varint_dec (varint_enc v ++ rest) = Some (v, length (varint_enc v)).
+Proof. exact varint_dec_enc. Qed.
+Theorem bitmap_roundtrip : forall n bs, length bs = n -> unpack_bits n (pack_bits bs) = bs.
+Proof. exact unpack_pack. Qed.
+
+(** every block kind the engine writes, for every fixed-width type and for VARCHAR / BLOB *)
+Theorem block_roundtrip_plain : forall c, In c fw_list -> bk_rt (bk_plain (nn_plain c)) small.
+Proof. exact fw_plain_roundtrip. Qed.
+Theorem block_roundtrip_nullable : forall c, In c fw_list -> bk_rt (bk_nullable (nn_plain c)) small.
+Proof. exact fw_nullable_roundtrip. Qed.
+Theorem block_roundtrip_rle : forall c, In c fw_exact_list ->
+  bk_rt (bk_rle (bk_plain (nn_plain c))) small /\ bk_rt (bk_rle (bk_nullable (nn_plain c))) small.
+Proof. exact fw_rle_roundtrip. Qed.
+Theorem block_roundtrip_dict : forall c, In c fw_exact_list ->
+  bk_rt (bk_dict (bk_plain (nn_plain c))) small /\ bk_rt (bk_dict (bk_nullable (nn_plain c))) small.
+Proof. exact fw_dict_roundtrip. Qed.
+Theorem block_roundtrip_varchar :
+  bk_rt (bk_plain nn_blob) small_blob /\ bk_rt (bk_nullable nn_blob) small_blob /\
+  bk_rt (bk_rle (bk_plain nn_blob)) small_blob_rle /\ bk_rt (bk_rle (bk_nullable nn_blob)) small_blob_rle /\
+  bk_rt (bk_dict (bk_plain nn_blob)) small_blob_dict /\ bk_rt (bk_dict (bk_nullable nn_blob)) small_blob_dict.
+Proof.
+  exact (conj blob_plain_roundtrip (conj blob_nullable_roundtrip
+        (conj (proj1 blob_rle_roundtrip) (conj (proj2 blob_rle_roundtrip)
+        (conj (proj1 blob_dict_roundtrip) (proj2 blob_dict_roundtrip)))))).
+Qed.
+
+(** known finding KF_C06_f64_eq_classes_rle_dict: DOUBLE under RLE / dictionary is NOT exact *)
+Theorem f64_rle_dict_refuted :
+  forallb (bk_okb (bk_rle (bk_plain (nn_plain fw_f64)))) f64_witness = true /\
+  bk_dec (bk_rle (bk_plain (nn_plain fw_f64))) 2 (bk_enc (bk_rle (bk_plain (nn_plain fw_f64))) f64_witness)
+    = [Some (CInt (2 ^ 63)); Some (CInt (2 ^ 63))] /\
+  bk_dec (bk_dict (bk_plain (nn_plain fw_f64))) 2 (bk_enc (bk_dict (bk_plain (nn_plain fw_f64))) f64_witness)
+    = [Some (CInt (2 ^ 63)); Some (CInt (2 ^ 63))].
+Proof. exact f64_rle_refuted. Qed.
+
+(** the iterator over ANY partition into blocks, ANY start row, ANY request list *)
+Theorem column_iterator_exact : forall (A : Type) (bs : blocks A) start reqs,
+  (0 < length bs)%nat -> (start <= length (concat bs))%nat -> Forall req_ok reqs ->
+  trace_ok A (concat bs) start reqs (col_read A bs start reqs).
+Proof. exact col_read_exact. Qed.
+
+(** file level: blocks with trailers laid out back to back decode to the blocks *)
+Theorem column_file_roundtrip : forall bk P t crc, bk_rt bk P -> forall blocks pre,
+  Forall (fun b => P b /\ forallb (bk_okb bk) b = true) blocks ->
+  column_decode bk (pre ++ column_bytes bk t crc blocks) (index_of bk blocks (length pre)) = blocks.
+Proof. exact column_roundtrip. Qed.
+
+(** end to end *)
+Theorem column_read_exact : forall bk P t crc (values : list (option cell)) (sizes : list nat) start reqs,
+  bk_rt bk P ->
+  let blocks := split_at sizes values in
+  concat blocks = values -> (0 < length blocks)%nat ->
+  Forall (fun b => P b /\ forallb (bk_okb bk) b = true) blocks ->
+  (start <= length values)%nat -> Forall req_ok reqs ->
+  let file := column_bytes bk t crc blocks in
+  let decoded := column_decode bk file (index_of bk blocks 0) in
+  trace_ok _ values start reqs (col_read _ decoded start reqs).
+Proof. exact C06P.column_read_exact. Qed.
+
+(** non-vacuity: a concrete nullable INT column in two blocks meets every hypothesis *)
+Example column_read_exact_applies :
+  let values := [Some (CInt 1); None; Some (CInt (-3)); Some (CInt 4); None] in
+  let blocks := split_at [3; 2]%nat values in
+  concat blocks = values /\ (0 < length blocks)%nat /\
+  Forall (fun b => small b /\ forallb (bk_okb (bk_nullable (nn_plain (fw_int_le 4)))) b = true) blocks.
+Proof. cbv zeta. split; [reflexivity|]. split; [cbn; auto|]. repeat constructor. Qed.
+
+Print Assumptions le_roundtrip.
+Print Assumptions be_roundtrip.
+Print Assumptions varint_roundtrip.
+Print Assumptions bitmap_roundtrip.
+Print Assumptions block_roundtrip_plain.
+Print Assumptions block_roundtrip_nullable.
+Print Assumptions block_roundtrip_rle.
+Print Assumptions block_roundtrip_dict.
+Print Assumptions block_roundtrip_varchar.
+Print Assumptions f64_rle_dict_refuted.
+Print Assumptions column_iterator_exact.
+Print Assumptions column_file_roundtrip.
+Print Assumptions column_read_exact.
